@@ -7,7 +7,7 @@ From ClapModel Require Import Parse.Cmd Parse.Build Parse.Valid Parse.Matcher Pa
 From ClapModel Require Import ParseProofs.Safe ParseProofs.Invariant ParseProofs.Totality
                               ParseProofs.ValidateTotal ParseProofs.Relations ParseProofs.TotalityMain
                               ParseProofs.Sites ParseProofs.SitesComplete ParseProofs.FlagSubClass
-                              ParseProofs.FsTotality ParseProofs.FsTop.
+                              ParseProofs.FsTotality ParseProofs.FsAny ParseProofs.FsTop.
 From ClapModel Require Import Errors.RenderModel Errors.RenderLink.
 From ClapModel Require Gen.ErrorCtx.
 From ClapModel Require Gen.ParseSites.
@@ -347,3 +347,62 @@ Theorem C01_ignore_errors_top_example :
         Some (Some EUnknownArgument); Some (Some EInvalidSubcommand); Some (Some EInvalidValue)].
 Proof. exact ignore_errors_example. Qed.
 Print Assumptions C01_ignore_errors_top_example.
+
+(** ---------- round 5 (B): EVERY definition the gate accepts; the one reachable panic site ----------
+    ParseProofs/FsAny.v.  Class [unbuilt]: the internal Built flag is unset (local and global settings) on every node
+    of the definition -- a syntactic check; users cannot set the flag.  No condition on short flag-subcommands:
+    nesting, hyphen values, negative numbers anywhere. *)
+
+(** MAIN THEOREM for the full class.  For every definition the gate accepts and EVERY token list, parsing does not
+    run out of fuel, and the only panic site it can reach is 920 = `debug_assert_eq!(short_arg.advance_by(skip), Ok(()))`
+    of Parser::parse_short_arg (the recorded finding C01-flag-subcmd-skip).  Every other unwrap / expect / unreachable! /
+    debug_assert / index / unsigned subtraction on the parse path -- in particular `cur_idx - flag_subcmd_at` (243), which
+    [C01_sites_dead_flag_subs] excludes only for flat short flag-subcommands -- is dead for every valid definition. *)
+Theorem C01_only_site_920 : forall c0 toks,
+  unbuilt c0 = true -> valid c0 = true ->
+  match do_parse c0 toks with OPanicked s => s = 920 | OOutOfFuel => False | _ => True end.
+Proof. exact do_parse_only_920. Qed.
+Print Assumptions C01_only_site_920.
+
+(** the same at the entry point, for every argv (program name included) *)
+Theorem C01_only_site_920_argv : forall c0 argv,
+  unbuilt c0 = true -> valid c0 = true ->
+  match parse_top c0 argv with OPanicked s => s = 920 | OOutOfFuel => False | _ => True end.
+Proof. exact parse_top_only_920. Qed.
+Print Assumptions C01_only_site_920_argv.
+
+(** every [Modelled] row of the panic-site table ([C01_sites_match]: the sites of the Rust source today) except that one
+    assertion is dead for EVERY valid definition *)
+Theorem C01_sites_dead_any_valid : forall c0 toks, unbuilt c0 = true -> valid c0 = true ->
+  forall n, In n modelled_sites -> n <> 920 -> do_parse c0 toks <> OPanicked n.
+Proof. exact sites_dead_any. Qed.
+Print Assumptions C01_sites_dead_any_valid.
+
+(** the error-ignoring contract for EVERY valid definition with the setting: matches, a help / version request, or that
+    one assertion -- no other error kind, no other panic, no fuel exhaustion *)
+Theorem C01_ignore_errors_any_valid : forall c0 argv,
+  unbuilt c0 = true -> valid c0 = true -> is_set s_ignore_errors c0 = true ->
+  match parse_top c0 argv with
+  | OOk _ => True
+  | OErr e => e_kind e = EDisplayHelp \/ e_kind e = EDisplayVersion
+  | OPanicked s => s = 920
+  | OOutOfFuel | OInvalidConfig => False
+  end.
+Proof. exact parse_top_ignore_errors_any. Qed.
+Print Assumptions C01_ignore_errors_any_valid.
+
+(** non-vacuity and sharpness: the witnesses of the recorded finding (stale [at] through nesting; skip left unconsumed by
+    a hyphen-value positional; both; the round-1 witness with a three-index flag) satisfy the hypotheses, lie outside
+    [flag_sub_class], and reach 920 -- so the exception is necessary; other lines on the same nested definitions parse *)
+Theorem C01_only_site_920_examples :
+  (unbuilt stale_cmd = true /\ valid stale_cmd = true /\ flag_sub_class stale_cmd = false
+   /\ parse_top stale_cmd [[112]; [45; 83; 120]; [45; 81; 121]] = OPanicked 920
+   /\ outcome_kind (parse_top stale_cmd [[112]; [45; 83; 120; 81; 121]]) = Some None
+   /\ outcome_kind (parse_top stale_cmd [[112]; [45; 83]; [45; 81; 121]]) = Some None)
+  /\ (unbuilt hyphen_cmd = true /\ valid hyphen_cmd = true /\ flag_sub_class hyphen_cmd = false
+      /\ parse_top hyphen_cmd [[112]; [45; 83; 122]; [45; 255]] = OPanicked 920)
+  /\ (unbuilt hyphen2_cmd = true /\ valid hyphen2_cmd = true /\ flag_sub_class hyphen2_cmd = false)
+  /\ (unbuilt refuted_nested_cmd = true /\ valid refuted_nested_cmd = true
+      /\ parse_top refuted_nested_cmd [[112]; [45; 83; 102; 113; 122]] = OPanicked 920).
+Proof. exact only_920_examples. Qed.
+Print Assumptions C01_only_site_920_examples.
